@@ -392,6 +392,12 @@ def check(text, case_lines):
             leaves = source_leaves(case_lines)
             if leaves is not None and len(leaves) == len(item_props):
                 for k, (want, pes) in enumerate(zip(leaves, item_props)):
+                    written = {pe.get("name") for pe in pes}
+                    if any(n not in written for n in want):
+                        # a string-like source property has no element of its own name: it was renamed (alias / serialized
+                        # name / migration), merged with another spelling, or ignored; which value an element then holds is
+                        # the writer's name resolution, not text layout: the item is not compared
+                        continue
                     for pe in pes:
                         entry = want.get(pe.get("name"))
                         if entry and pe.get("name") != "Name":
